@@ -1,5 +1,6 @@
 import GB.C04.Refine
 import GB.C04.StageOracle
+import GB.C04.OracleProofs
 import GB.C04.WF
 import GB.C04.B64
 import GB.C04.TextProofs
@@ -1175,3 +1176,66 @@ theorem C04_duration_exact_domain :
       | some (unit, maxk) => unit % 10 ^ maxk == 0 && decide (unit < 2 ^ 53) && decide (10 ^ maxk ≤ unit)
       | none => false) = true := by
   decide
+
+/-! ## wave 7: the two specification oracles agree (`expectRules` vs `stageExpect`)
+
+  Full statement aimed at (kept as the goal; executed per case by the driver, `BAD the two specification oracles
+  disagree`):
+
+    theorem C04_expectRules_eq_stageExpect … (hs : srcsOf sch root (allCalls sch root bd rq) = some srcs) (hu : Unrelated srcs)
+        (h1 : expectRules sch orc root bd dec rq = some r1) (h2 : stageExpect sch orc root bd dec rq = some r2) :
+        (∀ e, r1 = .error e ↔ r2 = .error e) ∧ (∀ l1 l2, r1 = .ok l1 → r2 = .ok l2 → ∀ q, lget l1 q = lget l2 q)
+
+  Proved: the part of both oracles that judges the KEYS. Both reduce the request to a list of sources (resolved field,
+  values) and judge each by a text-form parser (`specParseLeaf` in the rules, `leafParse` in the stage oracle), then
+  combine (`firstError` over the results / `stageApply` in list order). Missing for the full statement: that the
+  rules' own resolution of the keys (`resolveGo` strict/non-strict, `firstUnknown`, `hasCommonPrefix` on the proto
+  path) yields the list `srcsOf (allCalls …)`, and the body stage (`bodyTarget`/`leaves (es.map …)` vs
+  `traverseFieldPath`/`foldl Msg.put`, which agree only for decoded bodies without duplicate paths). -/
+
+/-- Key verdicts agree, every cardinality and kind (lists, maps, well-known messages included): inside the hypotheses
+    of `C04_refines` (sources pairwise unrelated, body stage accepted), if the rules judge the sources one by one
+    with results `rs` (`SpecResults`: `specParseLeaf` on each source), then the rules' verdict `firstError rs` IS
+    `stageExpect`'s verdict — rejected by both with the same error, or accepted by both. -/
+theorem C04_expectRules_eq_stageExpect_partial (sch : Schema) (orc : Oracle) (root : MsgDesc) (bd : Binding) (dec : Dec)
+    (rq : Request) (srcs : List Src) (rs : List (Except Err Msg)) (m0 : Msg)
+    (hs : srcsOf sch root (allCalls sch root bd rq) = some srcs) (hu : Unrelated srcs)
+    (hb : bodyStage sch root bd dec = .ok m0) (hr : SpecResults sch orc srcs rs) :
+    (∀ e, firstError rs = some e → stageExpect sch orc root bd dec rq = some (.error e))
+    ∧ (firstError rs = none → ∃ l, stageExpect sch orc root bd dec rq = some (.ok l)) := by
+  obtain ⟨h1, h2⟩ := stageApply_firstError (sch := sch) (orc := orc) srcs rs m0 hr
+  unfold stageExpect
+  simp only [hs, pairwise_of_unrelated srcs hu, Bool.not_true, Bool.false_eq_true, if_false, hb]
+  refine ⟨?_, ?_⟩
+  · intro e he; rw [h1 e he]
+  · intro hn; obtain ⟨m', hm'⟩ := h2 hn; exact ⟨m', by rw [hm']⟩
+
+/-- the per-key core of the above: the two text-form parsers never disagree (the rules' parser may be silent —
+    `none`, an oracle fault — but where it speaks the stage parser says the same) -/
+theorem C04_key_parsers_agree (sch : Schema) (orc : Oracle) (p : Path) (f : Field) (vals : List Bytes) :
+    (∀ e, specParseLeaf sch orc p f vals = some (.error e) → leafParse sch orc f vals = .error e)
+    ∧ (∀ l, specParseLeaf sch orc p f vals = some (.ok l) → ∃ w, leafParse sch orc f vals = .ok w) :=
+  ⟨fun _ h => specParseLeaf_error h, fun _ h => specParseLeaf_ok_parses h⟩
+
+/-- … and for a singular scalar/enum leaf (no oneof, no map, no list) the VALUE agrees too: the leaves the rules
+    attribute to the key are exactly the stage's write applied to an empty message (nothing for the zero value of an
+    implicit-presence field, else the one cell) -/
+theorem C04_key_value_scalar_agree (sch : Schema) (orc : Oracle) (p : Path) (f : Field) (vals : List Bytes) (l : Msg)
+    (hc : f.card = .single) (hk : ∀ r, f.kind ≠ .message r)
+    (h : specParseLeaf sch orc p f vals = some (.ok l)) :
+    ∃ w, leafParse sch orc f vals = .ok w ∧ applyWrite [] p w = l :=
+  specParseLeaf_scalar_value hc hk h
+
+/-- `C04_overlap_deterministic` for the STREAM + websocket path as it is forwarded: the pump (fresh message per client
+    message, first error ends the forwarding) run on the sorted request sends the target the same messages for any
+    two listings of the same PathParams / url.Values maps. -/
+theorem C04_overlap_deterministic_pump (sch : Schema) (orc : Oracle) (root : MsgDesc) (bd : Binding) (decs : List Dec)
+    (pp pp' : List (Bytes × Bytes)) (q q' : List (Bytes × List Bytes))
+    (hpp : pp.Perm pp') (hq : q.Perm q')
+    (hkp : (pp.map (·.1)).Nodup) (hkq : (q.map (·.1)).Nodup) :
+    pump sch orc root bd (sortReq ⟨pp, q⟩) decs = pump sch orc root bd (sortReq ⟨pp', q'⟩) decs
+    ∧ pump sch orc root bd (sortReq ⟨pp, q⟩) decs
+        = okPrefix (decs.map (fun d => transcodeSorted sch orc root bd d ⟨pp, q⟩)) := by
+  refine ⟨?_, ?_⟩
+  · simp only [sortReq, sortKeys_canonical pp pp' hpp hkp, sortKeys_canonical q q' hq hkq]
+  · rw [pump_eq]; rfl
